@@ -269,6 +269,7 @@ def decodeRowsData (columnCount : Nat) : Parser (List (Option (List (Option Byte
   let n ← readInt
   if isNeg32 n then Parser.fail "invalid RESULT Rows data length"
   else if isNeg32 columnCount then Parser.fail "invalid RESULT Rows metadata column count"
+  else if n > 0 ∧ columnCount = 0 then Parser.fail "invalid RESULT Rows: rows declared, but no columns"
   else readN n (some <$> readN columnCount readBytes)
 
 def encodeRowsBody (version : Nat) (r : RowsResult) : Res Bytes := do
